@@ -12,7 +12,8 @@ def _file_decision(ex, st, k):
     n0 = getattr(st, 'iter_start_trace', 0)
     evs_ = st.trace[n0:]
     lst = [e for e in evs_ if e.name == 'lstat']
-    stt = [e for e in evs_ if e.name == 'stat']
+    # (os.stat / os.path.getmtime / getctime follow links: the age they report is the link target's, not the tile's own)
+    stt = [e for e in evs_ if e.name in ('stat', 'getmtime', 'getctime', 'getatime')]
     joins = [e for e in evs_ if e.name == 'join']
     handler = [e for e in evs_ if e.name in ('file_handler', 'remove')]
     ra = ex.truth(st, st.env['remove_all'])
@@ -78,6 +79,9 @@ contract('mapproxy.util.fs:cleanup_directory', props=['C12'],
          opaque_spec={'walk': {'returns': 'list[tuple[str,opaque,list[str]]]', 'pure': True},
                       'exists': {'returns': 'bool', 'pure': True}, 'listdir': {'returns': 'list[str]', 'pure': True},
                       'lstat': {'raises': ['OSError'], 'pure': True}, 'stat': {'raises': ['OSError'], 'pure': True},
+                      'getmtime': {'returns': 'real', 'raises': ['OSError'], 'pure': True},
+                      'getctime': {'returns': 'real', 'raises': ['OSError'], 'pure': True},
+                      'getatime': {'returns': 'real', 'raises': ['OSError'], 'pure': True},
                       'remove': {'raises': ['OSError']}, 'file_handler': {'raises': ['OSError']},
                       'remove_dir_if_empty': {'returns': 'bool'}, 'rmdir': {}, 'rmtree': {}},
          opaque=['join'],
